@@ -7,7 +7,9 @@
 //   htfs - services/filesystem.Htfs: histories of ChangeDir/RealPath/Cwd on a scratch tree;
 //   ftp  - the real FTP service (services.Get("ftp")) on a scratch root with a sentinel tree
 //          beside it: command sequences with path arguments; replies, transferred bytes and
-//          a snapshot of the whole window (root, its parent, its grandparent) afterwards.
+//          a snapshot of the whole window (root, its parent, its grandparent), of a host
+//          directory whose absolute name is mirrored inside the root, and of the harness's
+//          working directory with its parent, afterwards.
 //
 // CWD/CDUP are probed in a child process first (Fs.ChangeDir in services/ftp/ftpfs.go used
 // to call itself: stack exhaustion) and are used in-process when the child survives.
@@ -109,8 +111,31 @@ type entry struct {
 }
 
 type window struct {
-	base string // the window: everything at or beneath base
-	root string // base/ftp/root
+	base   string // the window around the root: everything at or beneath base
+	root   string // base/ftp/root
+	abs    string // a host directory whose absolute name is mirrored inside the root
+	cwdTop string // parent of the harness's working directory
+	wd     string // the harness's working directory (cwdTop/wd)
+}
+
+// newWindow lays the scratch areas out beneath top.
+func newWindow(top string) window {
+	w := window{base: filepath.Join(top, "c11win"), abs: filepath.Join(top, "c11-host-sentinel"), cwdTop: filepath.Join(top, "c11cwd")}
+	w.root = filepath.Join(w.base, "ftp", "root")
+	w.wd = filepath.Join(w.cwdTop, "wd")
+	return w
+}
+
+// Sentinel contents: "SENTINEL-" + an upper-case tail, so that every 4-byte piece of one holds
+// an upper-case letter - nothing the harness stores inside the root does.  secret.txt files
+// have sizes (777, 1234) that no file inside the root can reach in a session of <= 10 commands
+// (uploads are < 20 or > 3000 bytes).
+func secret(tag string, n int) string {
+	s := "SENTINEL-" + tag + "-"
+	for len(s) < n {
+		s += "QZXJKWVY"[len(s)%8 : len(s)%8+1]
+	}
+	return s
 }
 
 var treeSpec = []struct {
@@ -127,40 +152,94 @@ var treeSpec = []struct {
 	{"ftp/root/b", false, "inside-b-0123456789"},
 	{"ftp/a", true, ""},
 	{"ftp/a/a", true, ""},
-	{"ftp/a/b", false, "SENTINEL-1"},
-	{"ftp/b", false, "SENTINEL-2"},
+	{"ftp/a/b", false, "SENTINEL-1-QZXJ"},
+	{"ftp/b", false, "SENTINEL-2-QZXJ"},
 	{"ftp/SENTINEL-d", true, ""},
-	{"ftp/SENTINEL-d/a", false, "SENTINEL-3"},
+	{"ftp/SENTINEL-d/a", false, "SENTINEL-3-QZXJ"},
+	{"ftp/secret.txt", false, secret("S1", 777)},
 	{"a", true, ""},
 	{"a/a", true, ""},
-	{"a/b", false, "SENTINEL-4"},
-	{"b", false, "SENTINEL-5"},
+	{"a/b", false, "SENTINEL-4-QZXJ"},
+	{"b", false, "SENTINEL-5-QZXJ"},
+	{"secret.txt", false, secret("S2", 1234)},
 }
 
-func (w window) reset() {
-	if err := os.RemoveAll(w.base); err != nil {
-		hx.Fatal("reset window: %v", err)
+// beside the harness's working directory (names a client can give relative to it)
+var cwdSpec = []struct {
+	rel  string
+	dir  bool
+	data string
+}{
+	{"b", false, "SENTINEL-CWDUP-B-QZXJ"},
+	{"a", true, ""},
+	{"a/b", false, "SENTINEL-CWDUP-AB-QZXJ"},
+	{"secret.txt", false, secret("S3", 600)},
+	{"wd/b", false, "SENTINEL-CWD-B-QZXJ"},
+	{"wd/a", true, ""},
+	{"wd/a/b", false, "SENTINEL-CWD-AB-QZXJ"},
+	{"wd/secret.txt", false, secret("S4", 650)},
+}
+
+func mustWrite(p string, dir bool, data string) {
+	var err error
+	if dir {
+		err = os.Mkdir(p, 0o755)
+	} else {
+		err = os.WriteFile(p, []byte(data), 0o644)
 	}
-	if err := os.MkdirAll(w.base, 0o755); err != nil {
-		hx.Fatal("reset window: %v", err)
+	if err != nil {
+		hx.Fatal("build window: %v", err)
+	}
+}
+
+// the host file <abs>/f and, inside the root, a regular file with the same absolute name
+func (w window) absFile() string { return filepath.Join(w.abs, "f") }
+
+func (w window) reset() {
+	for _, d := range []string{w.base, w.abs} {
+		if err := os.RemoveAll(d); err != nil {
+			hx.Fatal("reset window: %v", err)
+		}
+		if err := os.MkdirAll(d, 0o755); err != nil {
+			hx.Fatal("reset window: %v", err)
+		}
 	}
 	for _, t := range treeSpec {
-		p := filepath.Join(w.base, t.rel)
-		var err error
-		if t.dir {
-			err = os.Mkdir(p, 0o755)
-		} else {
-			err = os.WriteFile(p, []byte(t.data), 0o644)
-		}
+		mustWrite(filepath.Join(w.base, t.rel), t.dir, t.data)
+	}
+	mustWrite(w.absFile(), false, "SENTINEL-ABS-QZXJ")
+	mustWrite(filepath.Join(w.abs, "d"), true, "")
+	mirror := filepath.Join(w.root, w.abs)
+	if err := os.MkdirAll(mirror, 0o755); err != nil {
+		hx.Fatal("build window: %v", err)
+	}
+	mustWrite(filepath.Join(mirror, "f"), false, "inside-mirror")
+	// the working directory itself must stay (it is the process's cwd): empty it instead
+	if err := os.MkdirAll(w.wd, 0o755); err != nil {
+		hx.Fatal("reset window: %v", err)
+	}
+	for _, d := range []string{w.wd, w.cwdTop} {
+		es, err := os.ReadDir(d)
 		if err != nil {
-			hx.Fatal("build window: %v", err)
+			hx.Fatal("reset window: %v", err)
 		}
+		for _, e := range es {
+			if d == w.cwdTop && e.Name() == "wd" {
+				continue
+			}
+			if err := os.RemoveAll(filepath.Join(d, e.Name())); err != nil {
+				hx.Fatal("reset window: %v", err)
+			}
+		}
+	}
+	for _, t := range cwdSpec {
+		mustWrite(filepath.Join(w.cwdTop, t.rel), t.dir, t.data)
 	}
 }
 
 func (w window) snapshot() []entry {
 	var out []entry
-	err := filepath.Walk(w.base, func(p string, info os.FileInfo, err error) error {
+	walk := func(p string, info os.FileInfo, err error) error {
 		if err != nil {
 			return err
 		}
@@ -178,9 +257,11 @@ func (w window) snapshot() []entry {
 		}
 		out = append(out, e)
 		return nil
-	})
-	if err != nil {
-		hx.Fatal("snapshot: %v", err)
+	}
+	for _, d := range []string{w.base, w.abs, w.cwdTop} {
+		if err := filepath.Walk(d, walk); err != nil {
+			hx.Fatal("snapshot: %v", err)
+		}
 	}
 	sort.Slice(out, func(i, j int) bool { return out[i].Key < out[j].Key })
 	return out
@@ -305,15 +386,14 @@ func main() {
 	if err != nil {
 		hx.Fatal("abs: %v", err)
 	}
-	w := window{base: filepath.Join(out, "c11win")}
-	w.root = filepath.Join(w.base, "ftp", "root")
-	// a clean working directory of our own, so that relative escapes are visible
-	cwd := filepath.Join(out, "c11cwd", "wd")
-	os.RemoveAll(filepath.Join(out, "c11cwd"))
-	if err := os.MkdirAll(cwd, 0o755); err != nil {
+	w := newWindow(out)
+	// a working directory of our own with sentinels in and beside it, so that paths taken
+	// relative to the process are visible
+	os.RemoveAll(w.cwdTop)
+	if err := os.MkdirAll(w.wd, 0o755); err != nil {
 		hx.Fatal("mkdir: %v", err)
 	}
-	if err := os.Chdir(cwd); err != nil {
+	if err := os.Chdir(w.wd); err != nil {
 		hx.Fatal("chdir: %v", err)
 	}
 	w.reset()
